@@ -343,6 +343,7 @@ func main() {
 	checkOpenMany(f, res, drv, lib.NewRand(f.Seed*1000003+8))
 	checkFileKeyStress(f, res)
 	checkLoggerOutput(f, res)
+	checkCryptoOverlap(f, res, lib.NewRand(f.Seed*1000003+9))
 
 	// 3. mixed concurrent workload against sequential results
 	workers, nops, rounds := 4, 40, 1
@@ -727,6 +728,8 @@ func replay(f lib.Flags, res *lib.Result, drv *lib.Drv) {
 		replayOpenMany(f, res, drv, rp.Case)
 	case "fkstress":
 		checkFileKeyStress(f, res)
+	case "crypto-overlap", "crypto-overlap-race":
+		replayCryptoOverlap(f, res, rp.Case)
 	case "logout":
 		checkLoggerOutput(f, res)
 	case "cron-desc":
